@@ -27,6 +27,7 @@ func init() {
 			c.run("C11-R13", "TYPESTATE: no send after close; a channel its launcher waits on is closed as the worker's last action", func(c *Ctx) { noSendAfterClose(c); completionClosedLast(c, "", 3); nilChannelUse(c) })
 			c.run("C11-S2", "shared with C18-R3: a read that timed out is retried only when a pause began after this very attempt started (else a silent peer is waited for without end)", c18R3)
 			c.run("C11-S3", "shared with C05-R9: the wind-up of a failed transfer latches 'stopped' — the flag the workers waiting in the pause loops look at, so none is left running", stopLatchRule)
+			c.run("C11-S4", "shared with C02-10: a write failure reaches the stage that counts saved bytes (a failed transfer ends with an error, not with success)", c02DirectWrite)
 			c.run("C11-R7", "GUARD-DOM (shared with C02-7): a source that ends before its announced length is an error, not a silent wait or spin", c02ShortSource)
 		})
 }
